@@ -129,33 +129,146 @@ def writeSeq (u : Bool) : List Bytes → List Event
   | [b] => blockSeq u 0xFE b
   | blocks => multiSeq u blocks ++ [.byte 0xFD]
 
-theorem write_dataSeq (u : Bool) (blocks : List Bytes) (idx : Nat) :
-    DataSeq u (write B blocks idx) (writeSeq u blocks) := by
+/-- How a multiple-block write combines the outcome of its block loop with the outcome of the
+stop sequence (attempted either way): the loop's error wins. -/
+def combineStop : SRes Unit → SRes Unit → SRes Unit
+  | .ok _, .ok _ => .ok ()
+  | .ok _, .err e => .err e
+  | .ok _, .panic p => .panic p
+  | .err e, _ => .err e
+  | .panic p, _ => .panic p
+
+/-- What follows CMD25 in a multiple-block write, named (the model writes it inline in `write`):
+the block loop, then — whatever the loop did — the stop sequence. -/
+def writeRest (B : BusOps σ) (blocks : List Bytes) : S σ Unit := do
+  let r ← S.attempt (writeBlocks B blocks)
+  match r with
+  | .panic p => S.lift (.panic p)
+  | _ => do
+    let stopped ← S.attempt (stopWrite B)
+    match r, stopped with
+    | .ok _, .ok _ => pure ()
+    | .ok _, .err e => S.fail e
+    | .ok _, .panic p => S.lift (.panic p)
+    | .err e, _ => S.fail e
+    | .panic p, _ => S.lift (.panic p)
+
+/-- The events of both parts, and the combined result. -/
+theorem writeRest_trAt (blocks : List Bytes) (s : St σ) {P Q : SRes Unit → List Event → Prop}
+    (hw : TrAt (writeBlocks B blocks) s P) (hs : Tr (stopWrite B) Q) :
+    TrAt (writeRest B blocks) s
+      (fun r evs => ∃ r1 r2 e1 e2, evs = e1 ++ e2 ∧ P r1 e1 ∧ Q r2 e2 ∧ r = combineStop r1 r2) := by
+  unfold writeRest
+  have hnp := writeBlocks_nopanic B blocks s
+  obtain ⟨e1, a1, a2, a3, a4⟩ := hw
+  obtain ⟨e2, b1, b2, b3, b4⟩ := hs (writeBlocks B blocks s).2
+  unfold TrAt
+  simp only [bind_apply, attempt_apply]
+  rcases hwb : writeBlocks B blocks s with ⟨r1, s1⟩
+  rw [hwb] at hnp a1 a2 a3 a4 b1 b2 b3 b4
+  simp only at hnp a1 a2 a3 a4 b1 b2 b3 b4
+  rcases hst : stopWrite B s1 with ⟨r2, s2⟩
+  rw [hst] at b1 b2 b3 b4
+  simp only at b1 b2 b3 b4
+  have hev : s2.events = (e1 ++ e2).reverse ++ s.events := by rw [b1, a1]; simp
+  cases r1 with
+  | panic p => exact absurd rfl (hnp p)
+  | ok u =>
+    cases r2 <;> exact ⟨e1 ++ e2, hev, b2.trans a2, b3.trans a3, _, _, e1, e2, rfl, a4, b4, rfl⟩
+  | err e =>
+    cases r2 <;> exact ⟨e1 ++ e2, hev, b2.trans a2, b3.trans a3, _, _, e1, e2, rfl, a4, b4, rfl⟩
+
+theorem stopWrite_dataSeq (u : Bool) : DataSeq u (stopWrite B) [.byte 0xFD] := by
+  unfold stopWrite
+  refine ((waitNotBusy_nodata B u _).bind fun _ => (?_ : DataSeq u (writeByte B _) [.byte 0xFD]).bind fun _ =>
+    (readByte_nodata B u).bind fun _ => waitNotBusy_nodata B u _).cast (by simp)
+  intro s _
+  refine (writeByte_tr B _ s).conseq ?_
+  rintro r evs ⟨rfl, hr⟩
+  exact ⟨⟨[], rfl⟩, fun _ => rfl⟩
+
+/-- A step without data-phase events in front of a computation whose outcome is judged by its
+data-phase events only. -/
+theorem nodata_bind {u : Bool} {m : S σ α} {f : α → S σ β} {s : St σ} {R : SRes β → List Event → Prop}
+    (hm : DataSeq u m []) (hs : s.useCrc = u)
+    (hf : ∀ a s', s'.useCrc = u → TrAt (f a) s' (fun r evs => R r (dataEvs evs)))
+    (herr : ∀ e, R (.err e) []) (hpanic : ∀ p, R (.panic p) []) :
+    TrAt (m >>= f) s (fun r evs => R r (dataEvs evs)) := by
+  refine ((hm s hs).bind' fun a s' _ hu => hf a s' (hu.trans hs)).conseq ?_
+  rintro r evs (⟨a, e1, e2, rfl, h1, h2⟩ | ⟨e, rfl, h⟩ | ⟨p, rfl, h⟩)
+  · rw [dataEvs_append, List.prefix_nil.mp h1.1, List.nil_append]; exact h2
+  · rw [List.prefix_nil.mp h.1]; exact herr e
+  · rw [List.prefix_nil.mp h.1]; exact hpanic p
+
+/-- The data phase of a `write`, judged on the data-phase events `d` of the call: a prefix of
+`writeSeq` — or, for a multiple-block write whose block loop failed, a prefix of the blocks
+followed by the stop token, which is sent either way — and exactly `writeSeq` when the `write`
+succeeds.  Same body as `Sdmmc.Props.C14.WriteFraming`. -/
+def WriteFraming (u : Bool) (blocks : List Bytes) (r : SRes Unit) (d : List Event) : Prop :=
+  (d <+: writeSeq u blocks ∨
+    ((∀ b, blocks ≠ [b]) ∧ ∃ pfx, pfx <+: multiSeq u blocks ∧ d = pfx ++ [.byte 0xFD])) ∧
+  ((∃ a, r = .ok a) → d = writeSeq u blocks)
+
+theorem write_dataSeq (u : Bool) (blocks : List Bytes) (idx : Nat) (s : St σ) (hs : s.useCrc = u) :
+    TrAt (write B blocks idx) s (fun r evs => WriteFraming u blocks r (dataEvs evs)) := by
+  have herr : ∀ e, WriteFraming u blocks (.err e) [] := fun e => ⟨Or.inl List.nil_prefix, fun ⟨_, h⟩ => by cases h⟩
+  have hpanic : ∀ p, WriteFraming u blocks (.panic p) [] := fun p => ⟨Or.inl List.nil_prefix, fun ⟨_, h⟩ => by cases h⟩
   unfold write
-  refine (DataSeq.get.bind fun s => (DataSeq.lift _).bind fun start =>
-    (?_ : DataSeq u _ (writeSeq u blocks))).cast (by simp)
+  refine nodata_bind DataSeq.get hs (fun s0 s' hs' => ?_) herr hpanic
+  refine nodata_bind (DataSeq.lift _) hs' (fun start s1 hs1 => ?_) herr hpanic
   split
   · next b =>
-    refine ((cardCommand_nodata B u _ _).bind fun _ => (writeData_dataSeq B u _ b).bind fun _ =>
-      (waitNotBusy_nodata B u _).bind fun _ => (cardCommand_nodata B u _ _).bind fun r =>
-        (?_ : DataSeq u _ [])).cast ?_
-    · refine DataSeq.ite (DataSeq.fail _ _) ((readByte_nodata B u).bind fun _ => DataSeq.ite (DataSeq.fail _ _) (DataSeq.pure ()))
-    · simp [writeSeq, DATA_START_BLOCK]
+    have h : DataSeq u (do
+        let _ ← cardCommand B CMD24 start
+        writeData B DATA_START_BLOCK b
+        waitNotBusy B DEFAULT_WRITE_RETRIES
+        let r ← cardCommand B CMD13 0
+        if r ≠ 0 then S.fail .WriteError else
+        let r2 ← readByte B
+        if r2 ≠ 0 then S.fail .WriteError else pure ()) (writeSeq u [b]) := by
+      refine ((cardCommand_nodata B u _ _).bind fun _ => (writeData_dataSeq B u _ b).bind fun _ =>
+        (waitNotBusy_nodata B u _).bind fun _ => (cardCommand_nodata B u _ _).bind fun r =>
+          (?_ : DataSeq u _ [])).cast ?_
+      · refine DataSeq.ite (DataSeq.fail _ _) ((readByte_nodata B u).bind fun _ => DataSeq.ite (DataSeq.fail _ _) (DataSeq.pure ()))
+      · simp [writeSeq, DATA_START_BLOCK]
+    exact (h s1 hs1).conseq fun r evs hp => ⟨Or.inl hp.1, hp.2⟩
   · next hne =>
     have hw : writeSeq u blocks = multiSeq u blocks ++ [.byte 0xFD] := by
       unfold writeSeq
       split
       · next b => exact absurd rfl (hne b)
       · rfl
-    refine ((cardAcmd_nodata B u _ _).bind fun _ => (waitNotBusy_nodata B u _).bind fun _ =>
-      (cardCommand_nodata B u _ _).bind fun _ => (writeBlocks_dataSeq B u blocks).bind fun _ =>
-        (waitNotBusy_nodata B u _).bind fun _ => (?_ : DataSeq u (writeByte B _) [.byte 0xFD]).bind fun _ =>
-          waitNotBusy_nodata B u _).cast ?_
-    · intro s _
-      refine (writeByte_tr B _ s).conseq ?_
-      rintro r evs ⟨rfl, hr⟩
-      exact ⟨⟨[], rfl⟩, fun _ => rfl⟩
-    · simp [hw]
+    refine nodata_bind (cardAcmd_nodata B u _ _) hs1 (fun _ s2 hs2 => ?_) herr hpanic
+    refine nodata_bind (waitNotBusy_nodata B u _) hs2 (fun _ s3 hs3 => ?_) herr hpanic
+    refine nodata_bind (cardCommand_nodata B u _ _) hs3 (fun _ s4 hs4 => ?_) herr hpanic
+    refine (writeRest_trAt B blocks s4 (writeBlocks_dataSeq B u blocks s4 hs4)
+      (fun s' => stopWrite_dataSeq B s'.useCrc s' rfl)).conseq ?_
+    rintro r evs ⟨r1, r2, e1, e2, rfl, ⟨p1, p2⟩, ⟨q1, q2⟩, rfl⟩
+    have hstop : dataEvs e2 = [] ∨ dataEvs e2 = [.byte 0xFD] := by
+      obtain ⟨t, ht⟩ := q1
+      cases hd : dataEvs e2 with
+      | nil => exact Or.inl rfl
+      | cons x xs =>
+        rw [hd] at ht
+        simp only [List.cons_append, List.cons.injEq, List.append_eq_nil_iff] at ht
+        exact Or.inr (by rw [ht.1, ht.2.1])
+    have hfail : ∀ r, (∀ a, r ≠ .ok a) → WriteFraming u blocks r (dataEvs (e1 ++ e2)) := by
+      intro r hr
+      refine ⟨?_, fun ⟨a, h⟩ => absurd h (hr a)⟩
+      rw [dataEvs_append, hw]
+      rcases hstop with h | h
+      · rw [h, List.append_nil]; exact Or.inl (p1.trans (List.prefix_append _ _))
+      · rw [h]; exact Or.inr ⟨hne, dataEvs e1, p1, rfl⟩
+    cases r1 with
+    | panic p => exact hfail _ (fun a h => by cases h)
+    | err e => exact hfail _ (fun a h => by cases h)
+    | ok a =>
+      cases r2 with
+      | err e => exact hfail _ (fun a h => by cases h)
+      | panic p => exact hfail _ (fun a h => by cases h)
+      | ok b =>
+        rw [dataEvs_append, p2 ⟨a, rfl⟩, q2 ⟨b, rfl⟩]
+        exact ⟨Or.inl (by rw [hw]; exact List.prefix_refl _), fun _ => hw.symm⟩
 
 /-! ### The command frames of a log -/
 
@@ -301,6 +414,92 @@ theorem read_multi_terminated (n idx start : Nat) (hn : n ≠ 1) (s : St σ)
   · simp
   · cases he
 
+/-- The events of the stop sequence of a multiple-block write: the polls of the busy wait; then
+either the stop token 0xFD — sent right after a poll that showed the card not busy — and then only
+polls: the byte that is clocked and discarded and the final busy wait (ending, if the sequence
+succeeded, with a not-busy poll); or nothing more,
+because the wait failed: its last poll did not show the card not busy (it was still busy when the
+budget ran out, or an SPI error occurred). -/
+def StopEvs (r : SRes Unit) (evs : List Event) : Prop :=
+  ∃ polls rest, evs = polls ++ rest ∧ AllPolls polls ∧ polls ≠ [] ∧
+    ((polls.getLast? = some (.poll 255) ∧ ∃ post, rest = Event.byte 0xFD :: post ∧ AllPolls post ∧
+        (r = .ok () → post.getLast? = some (.poll 255))) ∨
+     (rest = [] ∧ polls.getLast? ≠ some (.poll 255) ∧ ∃ e, r = .err e))
+
+theorem stopWrite_tr : Tr (stopWrite B) StopEvs := by
+  have hw : ∀ n, Tr (waitNotBusy B n) (fun r evs => (AllPolls evs ∧ (r = .ok () → evs.getLast? = some (.poll 255)) ∧
+      (∀ p, r ≠ .panic p)) ∧ ((∃ e, r = .err e) → evs ≠ [] ∧ evs.getLast? ≠ some (.poll 255))) :=
+    fun n => Tr.and (waitNotBusy_tr B n) (waitNotBusy_fail_tr B n)
+  unfold stopWrite
+  refine (Tr.bind (hw _) fun _ => Tr.bind (writeByte_tr B _) fun _ => Tr.bind (readByte_polls B) fun _ =>
+    waitNotBusy_tr B _).conseq ?_
+  rintro r evs (⟨a, e1, e2, rfl, ⟨⟨hp1, h1, _⟩, _⟩, h2⟩ | ⟨e, rfl, ⟨hp1, _, _⟩, hf⟩ | ⟨p, rfl, ⟨_, _, h⟩, _⟩)
+  · have hl1 := h1 rfl
+    have hne : e1 ≠ [] := by intro h; rw [h] at hl1; simp at hl1
+    rcases h2 with ⟨a', e21, e22, rfl, ⟨rfl, _⟩, h3⟩ | ⟨e, rfl, ⟨rfl, _⟩, _⟩ | ⟨p, rfl, _, hr⟩
+    · rcases h3 with ⟨g, e31, e32, rfl, ⟨hq1, _, _⟩, hp, hl, _⟩ | ⟨e, rfl, hq1, _, _⟩ | ⟨p, rfl, _, hq, _⟩
+      · refine ⟨e1, _, rfl, hp1, hne, Or.inl ⟨hl1, e31 ++ e32, by simp [STOP_TRAN_TOKEN], by simp [hq1, hp], fun hr => ?_⟩⟩
+        have := hl hr
+        rw [List.getLast?_append, this]; rfl
+      · exact ⟨e1, _, rfl, hp1, hne, Or.inl ⟨hl1, _, by simp [STOP_TRAN_TOKEN], hq1, fun h => by cases h⟩⟩
+      · exact absurd rfl (hq p)
+    · exact ⟨e1, _, rfl, hp1, hne, Or.inl ⟨hl1, [], by simp [STOP_TRAN_TOKEN], by simp, fun h => by cases h⟩⟩
+    · rcases hr with h | h <;> cases h
+  · obtain ⟨hne, hl⟩ := hf ⟨e, rfl⟩
+    exact ⟨evs, [], by simp, hp1, hne, Or.inr ⟨rfl, hl, e, rfl⟩⟩
+  · exact absurd rfl (h p)
+
+/-- A multiple-block write whose CMD25 was answered always attempts the stop sequence afterwards,
+whatever happened to the blocks: after the events up to and including the block loop come the
+polls of a busy wait, and then the stop token 0xFD — right after a poll that showed the card not
+busy, followed only by the polls of the final busy wait — unless that wait itself failed (card
+still busy when the write budget ran out, or an SPI error), in which case `write` fails. -/
+theorem write_multi_stopped (blocks : List Bytes) (idx start : Nat) (hne : ∀ b, blocks ≠ [b]) (s : St σ)
+    (hstart : startIdx s.cardType idx = .ok start) (r0 : Nat) (s1 s2 : St σ) (r1 : Nat) (s3 : St σ)
+    (hacmd : cardAcmd B ACMD23 (blocks.length % 4294967296) s = (.ok r0, s1))
+    (hwait : waitNotBusy B DEFAULT_WRITE_RETRIES s1 = (.ok (), s2))
+    (h25 : cardCommand B CMD25 start s2 = (.ok r1, s3)) :
+    ∃ pre polls rest, evsNew s (write B blocks idx s).2 = pre ++ polls ++ rest ∧
+      Event.cmd (frame CMD25 start) ∈ pre ∧ AllPolls polls ∧ polls ≠ [] ∧
+      ((polls.getLast? = some (.poll 255) ∧ ∃ post, rest = Event.byte 0xFD :: post ∧ AllPolls post ∧
+          ((write B blocks idx s).1 = .ok () → post.getLast? = some (.poll 255))) ∨
+       (rest = [] ∧ polls.getLast? ≠ some (.poll 255) ∧ ∃ e, (write B blocks idx s).1 = .err e)) := by
+  obtain ⟨ea, ga, _⟩ := cardAcmd_tr B ACMD23 (blocks.length % 4294967296) s
+  obtain ⟨ew, gw, _⟩ := waitNotBusy_tr B DEFAULT_WRITE_RETRIES s1
+  obtain ⟨ec, gc, _, _, g4, _⟩ := cardCommand_tr B CMD25 start s2
+  rw [hacmd] at ga
+  rw [hwait] at gw
+  rw [h25] at gc g4
+  simp only at ga gw gc g4
+  obtain ⟨e2, k1, _, _, rl, rs, el, es, rfl, hnp, ⟨polls, rest, rfl, hp, hpne, hcase⟩, hres⟩ :=
+    writeRest_trAt B blocks s3 (P := fun r _ => ∀ p, r ≠ .panic p)
+      ((Tr.and_nopanic (writeBlocks_emits (Q := fun _ => True) B blocks) (writeBlocks_nopanic B blocks) s3).conseq
+        fun _ _ h => h.2) (stopWrite_tr B)
+  have hwrite : write B blocks idx s = writeRest B blocks s3 := by
+    unfold write
+    rw [bind_ok (get_apply s), bind_ok (show S.lift (startIdx s.cardType idx) s = (.ok start, s) by rw [hstart]; rfl)]
+    split
+    · exact absurd rfl (hne _)
+    · rw [bind_ok hacmd, bind_ok hwait, bind_ok h25]; rfl
+  rw [hwrite]
+  have hev : evsNew s (writeRest B blocks s3).2 = (ea ++ ew ++ ec) ++ (el ++ (polls ++ rest)) :=
+    evsNew_of_eq (by rw [k1, gc, gw, ga]; simp)
+  rw [hev]
+  refine ⟨ea ++ ew ++ ec ++ el, polls, rest, by simp, ?_, hp, hpne, ?_⟩
+  · rcases g4 with ⟨pre, post1, _, _, rfl, _⟩ | ⟨_, _, _, e, he⟩
+    · simp
+    · cases he
+  · rcases hcase with ⟨hl, post, rfl, hpp, hok⟩ | ⟨rfl, hl, e, rfl⟩
+    · refine Or.inl ⟨hl, post, rfl, hpp, fun h => hok ?_⟩
+      rw [hres] at h
+      cases rl <;> cases rs <;> simp [combineStop] at h ⊢
+    · refine Or.inr ⟨rfl, hl, ?_⟩
+      rw [hres]
+      cases rl with
+      | ok a => exact ⟨e, rfl⟩
+      | err e' => exact ⟨e', rfl⟩
+      | panic p => exact absurd rfl (hnp p)
+
 /-- On success the log ends with a not-busy poll, the stop token, and the polls of the final
 busy wait, the last of which shows the card not busy. -/
 def EndsStop {α : Type} (r : SRes α) (evs : List Event) : Prop :=
@@ -328,32 +527,27 @@ theorem write_multi_terminated (blocks : List Bytes) (idx : Nat) (hne : ∀ b, b
     (hok : (write B blocks idx s).1 = .ok ()) :
     ∃ pre post, evsNew s (write B blocks idx s).2 = pre ++ [Event.poll 255, Event.byte 0xFD] ++ post ∧
       AllPolls post ∧ post.getLast? = some (Event.poll 255) := by
-  have hlast : Tr (do
-      waitNotBusy B DEFAULT_WRITE_RETRIES
-      writeByte B (UInt8.ofNat STOP_TRAN_TOKEN)
-      waitNotBusy B DEFAULT_WRITE_RETRIES) EndsStop := by
-    refine (Tr.bind (waitNotBusy_tr B _) fun _ => Tr.bind (writeByte_tr B _) fun _ => waitNotBusy_tr B _).conseq ?_
-    rintro r evs (⟨a, e1, e2, rfl, ⟨_, h1, _⟩, h2⟩ | ⟨e, rfl, _⟩ | ⟨p, rfl, _⟩)
-    · rcases h2 with ⟨a', e21, e22, rfl, ⟨rfl, _⟩, hp, hl, _⟩ | ⟨e, rfl, _⟩ | ⟨p, rfl, _⟩
-      · intro hr
-        obtain ⟨u, rfl⟩ := hr
-        have hl1 := h1 rfl
-        obtain ⟨pre, rfl⟩ : ∃ pre, e1 = pre ++ [Event.poll 255] := by
-          rcases List.eq_nil_or_concat e1 with rfl | ⟨pre, x, rfl⟩
-          · simp at hl1
-          · simp at hl1; exact ⟨pre, by rw [hl1]; simp⟩
-        exact ⟨pre, e22, by simp [STOP_TRAN_TOKEN], hp, hl rfl⟩
-      · rintro ⟨_, hr⟩; cases hr
-      · rintro ⟨_, hr⟩; cases hr
-    · rintro ⟨_, hr⟩; cases hr
-    · rintro ⟨_, hr⟩; cases hr
+  have hlast : Tr (writeRest B blocks) EndsStop := by
+    intro s'
+    refine (writeRest_trAt B blocks s' (P := fun _ _ => True)
+      ((writeBlocks_emits (Q := fun _ => True) B blocks s').conseq fun _ _ _ => trivial) (stopWrite_tr B)).conseq ?_
+    rintro r evs ⟨r1, r2, e1, e2, rfl, _, ⟨polls, rest, rfl, hp, hpne, hcase⟩, rfl⟩ ⟨a, ha⟩
+    have h2 : r2 = .ok () := by cases r1 <;> cases r2 <;> simp [combineStop] at ha ⊢
+    subst h2
+    rcases hcase with ⟨hl, post, rfl, hpp, hok⟩ | ⟨_, _, e, he⟩
+    · obtain ⟨pre, rfl⟩ : ∃ pre, polls = pre ++ [Event.poll 255] := by
+        rcases List.eq_nil_or_concat polls with rfl | ⟨pre, x, rfl⟩
+        · exact absurd rfl hpne
+        · simp at hl; exact ⟨pre, by rw [hl]; simp⟩
+      exact ⟨e1 ++ pre, post, by simp, hpp, hok rfl⟩
+    · cases he
   have hw : Tr (write B blocks idx) EndsStop := by
     unfold write
     refine EndsStop.bind Emits.get fun s => EndsStop.bind (Emits.lift _) fun start => ?_
     split
     · next b => exact absurd rfl (hne b)
     · exact EndsStop.bind (cardAcmd_any B _ _) fun _ => EndsStop.bind (waitNotBusy_emits B _) fun _ =>
-        EndsStop.bind (cardCommand_any B _ _) fun _ => EndsStop.bind (writeBlocks_emits B _) fun _ => hlast
+        EndsStop.bind (cardCommand_any B _ _) fun _ => hlast
   exact (hw s).evsNew ⟨(), hok⟩
 
 end Sdmmc.Lemmas.Sd
